@@ -1,0 +1,207 @@
+//go:build verif
+
+package postgres
+
+// Contracts for the verif engine (/verif). Comment-only: no code is compiled
+// from this file with or without the tag. Syntax: see /verif/DESIGN.md.
+
+//@ func (*PostgresStoreWorker).readPromise
+//@ props C16 C17
+//@ ghostdb store
+//@ requires cmd != nil
+//@ ensures err == nil ==> db_is_cmd(cmd)
+//@ ensures err == nil ==> result_is_cmd(cmd, result)
+//@ ensures err != nil ==> result == nil
+
+//@ func (*PostgresStoreWorker).createPromise
+//@ props C16 C17
+//@ ghostdb store
+//@ stmt stmt PROMISE_INSERT_STATEMENT
+//@ requires cmd != nil
+//@ requires cmd.Param.Headers != nil && cmd.Param.Data != nil && cmd.Tags != nil
+//@ ensures err == nil ==> db_is_cmd(cmd)
+//@ ensures err == nil ==> result_is_cmd(cmd, result)
+//@ ensures err != nil ==> result == nil
+
+//@ func (*PostgresStoreWorker).createPromiseAndTask
+//@ props C16 C17
+//@ ghostdb store
+//@ stmt promiseStmt PROMISE_INSERT_STATEMENT
+//@ stmt taskStmt TASK_INSERT_STATEMENT
+//@ requires cmd != nil
+//@ requires cmd.PromiseCommand != nil && cmd.TaskCommand != nil
+//@ requires cmd.PromiseCommand.Param.Headers != nil && cmd.PromiseCommand.Param.Data != nil && cmd.PromiseCommand.Tags != nil
+//@ requires cmd.TaskCommand.Recv != nil && cmd.TaskCommand.Mesg != nil
+//@ requires cmd.TaskCommand.State == task.Init || cmd.TaskCommand.State == task.Claimed
+//@ requires cmd.TaskCommand.State != task.Claimed || cmd.TaskCommand.ProcessId != nil
+//@ ensures err == nil ==> db_is_cmd(cmd)
+//@ ensures err == nil ==> result_is_cmd(cmd, result)
+//@ ensures err != nil ==> result == nil
+
+//@ func (*PostgresStoreWorker).updatePromise
+//@ props C16 C17
+//@ ghostdb store
+//@ stmt stmt PROMISE_UPDATE_STATEMENT
+//@ requires cmd != nil
+//@ requires cmd.Value.Headers != nil && cmd.Value.Data != nil
+//@ requires cmd.State == promise.Resolved || cmd.State == promise.Rejected || cmd.State == promise.Canceled || cmd.State == promise.Timedout
+//@ ensures err == nil ==> db_is_cmd(cmd)
+//@ ensures err == nil ==> result_is_cmd(cmd, result)
+//@ ensures err != nil ==> result == nil
+
+//@ func (*PostgresStoreWorker).createCallback
+//@ props C16 C17
+//@ ghostdb store
+//@ stmt stmt CALLBACK_INSERT_STATEMENT
+//@ requires cmd != nil
+//@ requires cmd.Recv != nil && cmd.Mesg != nil
+//@ ensures err == nil ==> db_is_cmd(cmd)
+//@ ensures err == nil ==> result_is_cmd(cmd, result)
+//@ ensures err != nil ==> result == nil
+
+//@ func (*PostgresStoreWorker).deleteCallbacks
+//@ props C16 C17
+//@ ghostdb store
+//@ stmt stmt CALLBACK_DELETE_STATEMENT
+//@ requires cmd != nil
+//@ ensures err == nil ==> db_is_cmd(cmd)
+//@ ensures err == nil ==> result_is_cmd(cmd, result)
+//@ ensures err != nil ==> result == nil
+
+//@ func (*PostgresStoreWorker).readSchedule
+//@ props C16 C17
+//@ ghostdb store
+//@ requires cmd != nil
+//@ ensures err == nil ==> db_is_cmd(cmd)
+//@ ensures err == nil ==> result_is_cmd(cmd, result)
+//@ ensures err != nil ==> result == nil
+
+//@ func (*PostgresStoreWorker).createSchedule
+//@ props C16 C17
+//@ ghostdb store
+//@ stmt stmt SCHEDULE_INSERT_STATEMENT
+//@ requires cmd != nil
+//@ requires cmd.Tags != nil && cmd.PromiseParam.Headers != nil && cmd.PromiseParam.Data != nil && cmd.PromiseTags != nil
+//@ ensures err == nil ==> db_is_cmd(cmd)
+//@ ensures err == nil ==> result_is_cmd(cmd, result)
+//@ ensures err != nil ==> result == nil
+
+//@ func (*PostgresStoreWorker).updateSchedule
+//@ props C16 C17
+//@ ghostdb store
+//@ stmt stmt SCHEDULE_UPDATE_STATEMENT
+//@ requires cmd != nil
+//@ ensures err == nil ==> db_is_cmd(cmd)
+//@ ensures err == nil ==> result_is_cmd(cmd, result)
+//@ ensures err != nil ==> result == nil
+
+//@ func (*PostgresStoreWorker).deleteSchedule
+//@ props C16 C17
+//@ ghostdb store
+//@ stmt stmt SCHEDULE_DELETE_STATEMENT
+//@ requires cmd != nil
+//@ ensures err == nil ==> db_is_cmd(cmd)
+//@ ensures err == nil ==> result_is_cmd(cmd, result)
+//@ ensures err != nil ==> result == nil
+
+//@ func (*PostgresStoreWorker).readLock
+//@ props C16 C17
+//@ ghostdb store
+//@ requires cmd != nil
+//@ ensures err == nil ==> db_is_cmd(cmd)
+//@ ensures err == nil ==> result_is_cmd(cmd, result)
+//@ ensures err != nil ==> result == nil
+
+//@ func (*PostgresStoreWorker).acquireLock
+//@ props C16 C17
+//@ ghostdb store
+//@ stmt stmt LOCK_ACQUIRE_STATEMENT
+//@ requires cmd != nil
+//@ ensures err == nil ==> db_is_cmd(cmd)
+//@ ensures err == nil ==> result_is_cmd(cmd, result)
+//@ ensures err != nil ==> result == nil
+
+//@ func (*PostgresStoreWorker).releaseLock
+//@ props C16 C17
+//@ ghostdb store
+//@ stmt stmt LOCK_RELEASE_STATEMENT
+//@ requires cmd != nil
+//@ ensures err == nil ==> db_is_cmd(cmd)
+//@ ensures err == nil ==> result_is_cmd(cmd, result)
+//@ ensures err != nil ==> result == nil
+
+//@ func (*PostgresStoreWorker).hearbeatLocks
+//@ props C16 C17
+//@ ghostdb store
+//@ stmt stmt LOCK_HEARTBEAT_STATEMENT
+//@ requires cmd != nil
+//@ ensures err == nil ==> db_is_cmd(cmd)
+//@ ensures err == nil ==> result_is_cmd(cmd, result)
+//@ ensures err != nil ==> result == nil
+
+//@ func (*PostgresStoreWorker).timeoutLocks
+//@ props C16 C17
+//@ ghostdb store
+//@ stmt stmt LOCK_TIMEOUT_STATEMENT
+//@ requires cmd != nil
+//@ ensures err == nil ==> db_is_cmd(cmd)
+//@ ensures err == nil ==> result_is_cmd(cmd, result)
+//@ ensures err != nil ==> result == nil
+
+//@ func (*PostgresStoreWorker).readTask
+//@ props C16 C17
+//@ ghostdb store
+//@ requires cmd != nil
+//@ ensures err == nil ==> db_is_cmd(cmd)
+//@ ensures err == nil ==> result_is_cmd(cmd, result)
+//@ ensures err != nil ==> result == nil
+
+//@ func (*PostgresStoreWorker).createTask
+//@ props C16 C17
+//@ ghostdb store
+//@ stmt stmt TASK_INSERT_STATEMENT
+//@ requires cmd != nil
+//@ requires cmd.Recv != nil && cmd.Mesg != nil
+//@ requires cmd.State == task.Init || cmd.State == task.Claimed
+//@ requires cmd.State != task.Claimed || cmd.ProcessId != nil
+//@ ensures err == nil ==> db_is_cmd(cmd)
+//@ ensures err == nil ==> result_is_cmd(cmd, result)
+//@ ensures err != nil ==> result == nil
+
+//@ func (*PostgresStoreWorker).createTasks
+//@ props C16 C17
+//@ ghostdb store
+//@ stmt stmt TASK_INSERT_ALL_STATEMENT
+//@ requires cmd != nil
+//@ ensures err == nil ==> db_is_cmd(cmd)
+//@ ensures err == nil ==> result_is_cmd(cmd, result)
+//@ ensures err != nil ==> result == nil
+
+//@ func (*PostgresStoreWorker).completeTasks
+//@ props C16 C17
+//@ ghostdb store
+//@ stmt stmt TASK_COMPLETE_BY_ROOT_ID_STATEMENT
+//@ requires cmd != nil
+//@ ensures err == nil ==> db_is_cmd(cmd)
+//@ ensures err == nil ==> result_is_cmd(cmd, result)
+//@ ensures err != nil ==> result == nil
+
+//@ func (*PostgresStoreWorker).updateTask
+//@ props C16 C17
+//@ ghostdb store
+//@ stmt stmt TASK_UPDATE_STATEMENT
+//@ requires cmd != nil
+//@ requires len(cmd.CurrentStates) > 0
+//@ ensures err == nil ==> db_is_cmd(cmd)
+//@ ensures err == nil ==> result_is_cmd(cmd, result)
+//@ ensures err != nil ==> result == nil
+//@ loop 1 invariant rangeindex + 1 <= len(cmd.CurrentStates) && currentStates == maskprefix(cmd.CurrentStates, rangeindex + 1)
+
+//@ func (*PostgresStoreWorker).heartbeatTasks
+//@ props C16 C17
+//@ ghostdb store
+//@ stmt stmt TASK_HEARTBEAT_STATEMENT
+//@ requires cmd != nil
+//@ ensures err == nil ==> db_is_cmd(cmd)
+//@ ensures err == nil ==> result_is_cmd(cmd, result)
+//@ ensures err != nil ==> result == nil
